@@ -54,6 +54,25 @@ PROPS = {
         "level_text": "Exploration: hundreds of thousands of seeded matrices over Z, Z[i], Z[omega] (machine and arbitrary precision); the Hermite and LLL contracts are decided by an exact oracle. Right level: input/configuration property with a cheap exact judge; termination restated as a logical step bound.",
         "level_note": "Trusts the oracle's exact Gram-Schmidt and dense arithmetic; the Lovasz constants (3/4, 2/3) are taken from the library's documented choice; sampled inputs.",
     },
+    "C11": {
+        "budget_s": {"quick": 120, "thorough": 1800},
+        "floor": {"quick": 20000, "thorough": 400000},
+        "shards": 16,
+        "rule": "seeded sparse matrices over i64, Ratio<i64>, FF<3>, FF<5>, Poly<H,i64>: random (1..40/60 rows and columns, 1-5 entries per row, mix of +-1, other units, non-units) and the 'starved' family "
+                "(one light dense row that becomes the only sequential pivot and occupies every column; all other rows start with a heavy non-candidate and share a narrow span of +-1 columns, so they all reach the parallel phase with colliding candidates) "
+                "x {Rows, Cols} x {One, AnyUnit, Weight(1,2,3,5)} x rayon pool size {1,2,3,4,8,16} x schedule policy at the hooks {none, 0-300us sleep before the write lock, herd of k workers, yield storm}; "
+                "final-state oracle: distinct rows/columns, condition (hand-written unit tests per ring), triangular leading block by definition and through perms_by_pivots+permute, no panic; "
+                "trace monitor over hook events: commit indices contiguous, snapshot <= index, fresh row/column, every commit acyclic w.r.t. all earlier pivots (own DFS), no lost commit; "
+                "non-trivial = >= 2 rows reached the parallel phase; distinct = hash(matrix, commit order, type, condition)",
+        "assumptions": COMMON_ASSUME + [
+            "interleavings are sampled (OS scheduler + injected sleeps/herds/yields at the hook points), not enumerated; evidence reports retries, stale-snapshot commits and distinct commit orders actually observed",
+            "deadlock is judged by an in-process quiescence watchdog (case running > 30 s, all worker threads sleeping, no CPU progress over 2 s), never by wall-clock alone",
+            "the weight of an entry is the library's c_weight (it is the definition of the Weight condition); unit-ness is judged independently",
+        ],
+        "technique": "trace monitor + final-state oracle: real find_pivots calls under hook-injected schedule perturbation and varying pool sizes; event log (PivCommit/PivRetry/...) checked for commit freshness and acyclicity, result checked for triangularity",
+        "level_text": "Exploration of schedules and inputs: hundreds of thousands of real parallel pivot searches with injected delays at the race window (between candidate choice and the write lock), herding of workers and 1..16 threads; the monitor observes thousands of retries and stale-snapshot commits per run, checks every commit against all earlier ones and the final list against the triangularity definition. Right level: the property quantifies over schedules, which only executions under perturbation can sample.",
+        "level_note": "Schedules are sampled, not enumerated; the hook callback adds delays only at the library's own schedule points. Trusts the own DFS acyclicity check.",
+    },
     "C14": {
         "budget_s": {"quick": 60, "thorough": 900},
         "floor": {"quick": 50000, "thorough": 1000000},
